@@ -8,6 +8,7 @@ import (
 	"errors"
 	"fmt"
 	"strings"
+	"sync/atomic"
 
 	"github.com/veraison/eat"
 	"github.com/veraison/psatoken"
@@ -144,6 +145,8 @@ func RealComp(c *model.Comp) *psatoken.SwComponent {
 // object (e.g. a profile-2 profile claim that is neither URL nor OID).
 var ErrUnbuildable = errors.New("unbuildable")
 
+var emptyBuilds uint64
+
 // Build constructs the real object by direct field assignment.
 func Build(a *model.Claims) (psatoken.IClaims, error) {
 	ct, err := Container(a.Comps)
@@ -174,11 +177,21 @@ func Build(a *model.Claims) (psatoken.IClaims, error) {
 		v := *a.Lifecycle
 		lc = &v
 	}
+	// every other component-less object is built the way a zero-value struct
+	// literal is: with NO container at all (a nil interface) rather than an
+	// empty one; the library documents both as "no components"
+	nilContainer := false
+	if len(a.Comps) == 0 {
+		nilContainer = atomic.AddUint64(&emptyBuilds, 1)%2 == 0
+	}
 	if a.P == 1 {
 		c := &psatoken.P1Claims{
 			Profile: cs(a.Profile), ClientID: cid, SecurityLifeCycle: lc, ImplID: cb(a.ImplID), BootSeed: cb(a.BootSeed),
 			CertificationReference: cs(a.CertRef), SwComponents: ct, InstID: cb(a.InstID), VSI: cs(a.VSI),
 			CanonicalProfile: a.Canon,
+		}
+		if nilContainer {
+			c.SwComponents = nil
 		}
 		if a.NoMeas != nil {
 			v := uint(*a.NoMeas)
@@ -197,6 +210,9 @@ func Build(a *model.Claims) (psatoken.IClaims, error) {
 		ClientID: cid, SecurityLifeCycle: lc, ImplID: cb(a.ImplID), BootSeed: cb(a.BootSeed),
 		CertificationReference: cs(a.CertRef), SwComponents: ct, VSI: cs(a.VSI),
 		CanonicalProfile: a.Canon,
+	}
+	if nilContainer {
+		c.SwComponents = nil
 	}
 	if a.Profile != nil {
 		p, err := eat.NewProfile(*a.Profile)
@@ -370,6 +386,10 @@ func P2Of(x psatoken.IClaims) *psatoken.P2Claims {
 	case *psatoken.P2Claims:
 		return t
 	case *extprof.ExtP2Claims:
+		return &t.P2Claims
+	case *extprof.MixinClaims:
+		return &t.P2Claims
+	case *extprof.ExtOwnerClaims:
 		return &t.P2Claims
 	}
 	return nil
